@@ -8,11 +8,11 @@ def unhex(s):
 
 
 class Pass:
-    __slots__ = ('i', 'op', 'now', 'delivered', 'reads', 'writes', 'sys', 'clients', 'args', 'devs', 'interest', 'polltmo', 'tmo', 'died', 'raw', 'teardown', 'heap', 'hup', 'polltmos')
+    __slots__ = ('i', 'op', 'now', 'delivered', 'reads', 'writes', 'sys', 'clients', 'args', 'devs', 'interest', 'polltmo', 'tmo', 'died', 'raw', 'teardown', 'heap', 'hup', 'polltmos', 'connects')
 
     def __init__(self):
         self.delivered = {}; self.reads = {}; self.writes = {}; self.sys = []; self.clients = {}; self.args = {}
-        self.devs = {}; self.interest = {}; self.polltmo = None; self.tmo = None; self.died = False; self.teardown = False; self.heap = None; self.hup = None; self.polltmos = []
+        self.devs = {}; self.interest = {}; self.polltmo = None; self.tmo = None; self.died = False; self.teardown = False; self.heap = None; self.hup = None; self.polltmos = []; self.connects = []
 
 
 def parse(sim):
@@ -52,6 +52,7 @@ def parse(sim):
                 elif w[3] == "from": d['frm'] = unhex(w[4])
                 elif w[3] == "queue": d['queue'] = [tuple(int(x) for x in a.split(":")) for a in w[4:]]
             elif w[0] == "I" and w[1] == "heap": p.heap = int(w[2])
+            elif w[0] == "I" and w[1] == "connect": p.connects.append((int(w[2]), int(w[3])))      # (device, address index) of every connect()
             elif w[0] == "I" and w[1] == "dev" and w[3] == "acts": p.devs.setdefault(int(w[2]), {})['ids'] = [(x.split(':')[0], None if int(x.split(':')[1]) == 0 else int(x.split(':')[1]) - 1000000000) for x in w[4:]]   # the harness clock starts at 1000 s
             elif w[0] == "O" and w[1] == "interest": p.interest[int(w[2])] = int(w[3])
             elif w[0] == "O" and w[1] == "polltmo": p.polltmo = int(w[2]); p.polltmos.append(int(w[2]))
